@@ -185,8 +185,8 @@ pub fn subs_for(id: &str) -> Vec<Sub> {
                     stream_len: 600,
                     plant: true,
                 },
-                60_000,
-                1_500_000,
+                200_000,
+                4_000_000,
             ),
             sub(
                 p_builder::C18 {
@@ -196,8 +196,8 @@ pub fn subs_for(id: &str) -> Vec<Sub> {
                     stream_len: 500,
                     plant: false,
                 },
-                60_000,
-                1_500_000,
+                200_000,
+                4_000_000,
             ),
             sub(
                 p_builder::C18 {
@@ -211,8 +211,8 @@ pub fn subs_for(id: &str) -> Vec<Sub> {
                     stream_len: 6000,
                     plant: true,
                 },
-                1_500,
-                40_000,
+                3_000,
+                80_000,
             ),
         ],
         "C19" => vec![sub(
@@ -223,8 +223,8 @@ pub fn subs_for(id: &str) -> Vec<Sub> {
                     ..GenCfg::default()
                 },
             },
-            40_000,
-            1_000_000,
+            120_000,
+            3_000_000,
         )],
         "C20" => vec![
             sub(
@@ -243,8 +243,8 @@ pub fn subs_for(id: &str) -> Vec<Sub> {
                         p_builder::o_c20,
                     )
                 },
-                60_000,
-                1_500_000,
+                200_000,
+                4_000_000,
             ),
         ],
         "C07" => vec![sub(
@@ -261,8 +261,8 @@ pub fn subs_for(id: &str) -> Vec<Sub> {
                 700,
                 p_layout::o_c07,
             ),
-            60_000,
-            1_000_000,
+            200_000,
+            3_000_000,
         )],
         "C01" => vec![
             sub(
@@ -274,8 +274,8 @@ pub fn subs_for(id: &str) -> Vec<Sub> {
                     600,
                     p_layout::o_c01,
                 ),
-                60_000,
-                1_000_000,
+                200_000,
+                3_000_000,
             ),
             sub(
                 lp(
@@ -286,8 +286,8 @@ pub fn subs_for(id: &str) -> Vec<Sub> {
                     600,
                     p_layout::o_c01,
                 ),
-                60_000,
-                1_000_000,
+                200_000,
+                3_000_000,
             ),
         ],
         "C02" => vec![sub(
@@ -307,8 +307,8 @@ pub fn subs_for(id: &str) -> Vec<Sub> {
                 600,
                 p_layout::o_c02,
             ),
-            80_000,
-            1_500_000,
+            250_000,
+            4_000_000,
         )],
         "C03" => vec![sub(
             lp(
@@ -326,8 +326,8 @@ pub fn subs_for(id: &str) -> Vec<Sub> {
                 600,
                 p_layout::o_c03,
             ),
-            80_000,
-            1_500_000,
+            250_000,
+            4_000_000,
         )],
         "C04" => vec![
             sub(
@@ -339,8 +339,8 @@ pub fn subs_for(id: &str) -> Vec<Sub> {
                     600,
                     p_layout::o_c04,
                 ),
-                40_000,
-                800_000,
+                150_000,
+                2_500_000,
             ),
             sub(
                 lp(
@@ -351,8 +351,8 @@ pub fn subs_for(id: &str) -> Vec<Sub> {
                     500,
                     p_layout::o_c04,
                 ),
-                40_000,
-                800_000,
+                150_000,
+                2_500_000,
             ),
         ],
         "C10" => vec![
@@ -366,8 +366,8 @@ pub fn subs_for(id: &str) -> Vec<Sub> {
                     oracle: p_layout::o_c10,
                     capture_debug: false,
                 },
-                100_000,
-                2_000_000,
+                300_000,
+                6_000_000,
             ),
             sub(
                 LayoutProp {
@@ -391,8 +391,8 @@ pub fn subs_for(id: &str) -> Vec<Sub> {
                     oracle: p_layout::o_c10,
                     capture_debug: false,
                 },
-                100_000,
-                2_000_000,
+                300_000,
+                6_000_000,
             ),
         ],
         _ => vec![],
@@ -415,8 +415,8 @@ pub fn sched_subs_for(id: &str) -> Vec<Sub> {
                     vec![0, 1, 1, 2],
                     p_sched::nt_isolation,
                 ),
-                3_000,
-                100_000,
+                8_000,
+                300_000,
             ),
             sched_sub(
                 p_sched::SchedProp {
@@ -474,8 +474,8 @@ pub fn sched_subs_for(id: &str) -> Vec<Sub> {
                 vec![0, 1, 2],
                 p_sched::nt_deps,
             ),
-            3_000,
-            60_000,
+            8_000,
+            200_000,
         )],
         "C03" => vec![async_sub(
                 "C03",
@@ -505,8 +505,8 @@ pub fn sched_subs_for(id: &str) -> Vec<Sub> {
                 vec![0, 1, 2],
                 p_sched::nt_barriers,
             ),
-            3_000,
-            60_000,
+            8_000,
+            200_000,
         )],
         "C04" => vec![sched_sub(
             p_sched::SchedProp {
@@ -528,8 +528,8 @@ pub fn sched_subs_for(id: &str) -> Vec<Sub> {
                     p_sched::nt_counts,
                 )
             },
-            3_000,
-            60_000,
+            8_000,
+            200_000,
         )],
         "C05" => vec![
             sched_sub(
@@ -547,8 +547,8 @@ pub fn sched_subs_for(id: &str) -> Vec<Sub> {
                     vec![0, 1, 2],
                     p_sched::nt_differential,
                 ),
-                3_000,
-                100_000,
+                8_000,
+                300_000,
             ),
             sched_sub(
                 p_sched::SchedProp {
@@ -579,8 +579,8 @@ pub fn sched_subs_for(id: &str) -> Vec<Sub> {
                     ..GenCfg::default()
                 },
             },
-            40_000,
-            800_000,
+            150_000,
+            2_500_000,
         )],
         "C14" => vec![
             Sub {
@@ -655,7 +655,7 @@ pub fn sched_subs_for(id: &str) -> Vec<Sub> {
             },
         ],
         "C14g" => vec![],
-        "C17" => vec![sub(p_meta::C17, 60_000, 1_500_000)],
+        "C17" => vec![sub(p_meta::C17, 150_000, 4_000_000)],
         "C15" => vec![Sub {
             max_lanes: 4,
             ..sub(
@@ -678,19 +678,19 @@ pub fn sched_subs_for(id: &str) -> Vec<Sub> {
         }],
         "C16" => vec![Sub {
             max_lanes: 8,
-            ..sub(p_parseq::C16, 20_000, 600_000)
+            ..sub(p_parseq::C16, 40_000, 1_500_000)
         }],
-        "C09" => vec![sub(p_world::C09, 60_000, 1_500_000)],
+        "C09" => vec![sub(p_world::C09, 150_000, 4_000_000)],
         "C08" => vec![
-            sub(p_world::C08, 60_000, 1_500_000),
+            sub(p_world::C08, 150_000, 4_000_000),
             Sub {
                 max_lanes: 3,
-                ..sub(p_world_conc::C08Conc, 1_500, 60_000)
+                ..sub(p_world_conc::C08Conc, 3_000, 150_000)
             },
         ],
         "C11" => vec![Sub {
             max_lanes: 1,
-            ..sub(p_misc::C11, 300, 10_000)
+            ..sub(p_misc::C11, 600, 20_000)
         }],
         "C07" => vec![sched_sub(
             sp(
@@ -708,8 +708,8 @@ pub fn sched_subs_for(id: &str) -> Vec<Sub> {
                 vec![0, 1, 1, 2],
                 p_sched::nt_batch,
             ),
-            3_000,
-            100_000,
+            8_000,
+            300_000,
         )],
         "C12" => vec![
           Sub {
@@ -744,8 +744,8 @@ pub fn sched_subs_for(id: &str) -> Vec<Sub> {
                     ..GenCfg::default()
                 },
             },
-            6_000,
-            200_000,
+            15_000,
+            500_000,
           ),
           sub(
             p_misc::C12Sendable {
@@ -756,8 +756,8 @@ pub fn sched_subs_for(id: &str) -> Vec<Sub> {
                     ..GenCfg::default()
                 },
             },
-            20_000,
-            400_000,
+            60_000,
+            1_200_000,
           ),
           sched_sub(
             sp(
@@ -775,8 +775,8 @@ pub fn sched_subs_for(id: &str) -> Vec<Sub> {
                 vec![0, 1, 2],
                 p_sched::nt_thread_local,
             ),
-            3_000,
-            60_000,
+            8_000,
+            200_000,
           ),
         ],
         _ => vec![],
